@@ -1984,6 +1984,24 @@ def camp_c17(rnd, tier):
                         emb.append((x | hi | lo) & ((1 << bits) - 1))
                     s = Seqn.from_values(emb)
                     b.util(m, ty=ty, shift=sh, alpha=s.json_alpha(), seq=s.flat_ids())
+    # the randomised generators of perf_and_test_utils (outside the listed properties: notes only)
+    for n in (0, 1, 7, 300):
+        for sigma in (1, 2, 4, 255, 256):
+            b.tu("gen_sequence", n=n, sigma=sigma)
+        for r in (1, 2, 1000, 1 << 30):
+            b.tu("gen_queries", n=n, range=r)
+            b.tu("gen_queries_pairs", n=n, range=r, sigma=rnd.choice([1, 4, 256, 70000]))
+        for u in (n + 1, n + 2, 2 * n + 5, 100000):
+            b.tu("gen_strictly_increasing_sequence", n=n, u=u)
+        if n > 0:
+            sq = rand_seq(rnd, n, [0, 3, 7, 200, 255])
+            b.tu("gen_rank_queries", n=rnd.choice([1, 20]), s=sq)
+            b.tu("gen_select_queries", n=rnd.choice([1, 20]), s=sq)
+            v = sorted(rnd.sample(range(0, 4 * n + 3), n))
+            b.tu("negate_vector", v=v)
+    b.tu("negate_vector", v=[0])
+    b.tu("negate_vector", v=[5])
+    b.tu("negate_vector", v=[0, 1, 2, 3])
     # text_remap: all byte strings <= 4 over 4 values, plus random ones
     vals4 = [0, 7, 200, 255]
     for ln in range(0, 5 if tier == "thorough" else 4):
